@@ -412,6 +412,51 @@ PROPS['C19'] = dict(
     technique='model-based differential property testing (rapidcheck + seeded PRNG) against a merge model transcribed from the statement',
 )
 
+c20 = B('c20_lazy', 'c20_lazy.cpp', 'asan')
+fz20 = B('fz_lazy', 'c20_lazy.cpp', 'fuzz')
+PROPS['C20'] = dict(
+    title='UpdateLazy is a faithful recursive object merge',
+    units=[
+        U(c20, 'rc', 3000, 80000, wq=3, wt=4, label='c20-rc'),
+        U(c20, 'prng', 60000, 3000000, wq=6, wt=10, label='c20-prng'),
+        F(fz20, 15, 600, wq=2, wt=2, label='fz_lazy', field='raw', dict='fuzz/json.dict', seeds='fuzz/seeds/lazy'),
+    ],
+    harness_alias={'fz_lazy': 'c20_lazy'},
+    rule='cases: pairs (target text, source text) rendered from duplicate-free generated values: every kind combination at the '
+         'root (scalar/array/object/empty object), nested objects up to depth 6, objects of 0..40 members, keys from a shared '
+         'pool incl. the empty key and keys needing escapes on output (quote, backslash, tab, newline, 0x01, UTF-8), the source '
+         'made to share about half of the target keys at each level; the two sides rendered independently with random layouts '
+         'and random escaped/unescaped key spellings; plus libFuzzer (target NUL source). Oracle: merge_lazy() transcribed from '
+         'the statement on decoded keys; refjson accepts the result and parses it to the model (as key->value maps and in '
+         'target-order-then-appended order); no duplicate keys appear. Non-trivial: a common key at the root or an escape in '
+         'either text.',
+    min_evaluations=dict(quick=100000, thorough=2000000),
+    required_classes=['common-key', 'root:obj<-obj', 'root:empty-obj<-obj', 'root:obj<-empty-obj', 'root:obj<-scalar', 'root:scalar<-obj',
+                      'escape-on-one-side-only', 'large-target-object'],
+    technique='model-based differential property testing (rapidcheck + seeded PRNG + libFuzzer) against a merge model transcribed from the statement',
+)
+
+c18 = B('c18_equality', 'c18_equality.cpp', 'asan')
+PROPS['C18'] = dict(
+    title='Document equality is JSON value equality',
+    units=[
+        U(c18, 'rc', 3000, 80000, wq=3, wt=4, label='c18-rc'),
+        U(c18, 'prng', 50000, 3000000, wq=6, wt=10, label='c18-prng'),
+    ],
+    rule='cases: a duplicate-free value v, a partner w that is v or v with exactly one change (leaf value / bit, 1 vs 1.0, sign, '
+         '0.0 vs -0.0, number vs its digits as a string, string longer/shorter/one byte, null/false/true, [] vs {}, array '
+         'element added/removed/two different elements swapped, member dropped/added, key renamed to same length/longer/prefix), '
+         'two (three) construction histories out of 10: parse compact, parse with heavy whitespace, mutation-API build, build '
+         'with members permuted at every level, CopyFrom (source destroyed), parse of Dump, nodes that previously held another '
+         'kind, extra capacity (Reserve + add/remove), lookup maps on every object, borrowed constant strings; pool and freeing '
+         'allocators incl. cross-type comparison. Oracle: (a==b) == model equality (objects as maps, numbers by kind and bits); '
+         'b==a agrees; != is the negation; a==a; deep copy and parse of the serialised text are equal; transitivity on an '
+         'equal-by-construction triple. Non-trivial: a container with >= 2 children.',
+    min_evaluations=dict(quick=100000, thorough=2000000),
+    required_classes=['equal-pair', 'unequal-pair', 'alloc:cross-type', 'hist:build-permuted', 'hist:with-map', 'hist:prior-kind',
+                      'hist:const-strings', 'hist:extra-capacity', 'hist:copy'],
+)
+
 
 def tool_versions():
     out = {}
